@@ -24,4 +24,38 @@ PROPS = {
         "quick": {"scale": 1, "shards": 8, "timeout_s": 600},
         "thorough": {"scale": 12, "shards": 16, "timeout_s": 2400},
     },
+    # temporary entry added by the C20 builder (lead: replace/adjust as needed)
+    "C20": {
+        "pkg": "c20",
+        "level": "exploration",
+        "rule": ("scalar fields of k256, p256, edwards25519, pallas, BLS12-381 (drawn per case); every library result is recomputed "
+                 "in vlib/refmat (plain Gaussian elimination, Horner, falling-factorial derivatives, Lagrange/Newton formulas on "
+                 "math/big; self-tested by brute force over F_7/F_11 and Leibniz determinants) on values read out through Bytes(). "
+                 "Polynomials: 1-9 coefficients incl. zero leading ones / monomials / zero polynomial; Eval, Degree, iterated "
+                 "Derivative, LiftPolynomial(.., k*G).Eval vs lift of the reference value. Interpolation: 1-8 distinct unsorted nodes "
+                 "mixing 0, small IDs, IDs up to 2^64-1 (via FromUint64), near-p and uniform elements, evaluation point 0 / a node / "
+                 "small / uniform; lagrange.InterpolateAt, BasisAt, InterpolateInExponentAt, vandermonde.Interpolate and "
+                 "BuildVandermondeMatrix recover the drawn polynomial; repeated nodes (consistent / inconsistent values) and length "
+                 "mismatches as negative cases. Birkhoff: k <= 7 nodes laid out like the hierarchical access structure (1-3 levels, "
+                 "strictly increasing thresholds, order of a level = previous threshold, cumulative counts >= thresholds), ordered "
+                 "small / spread / arbitrary / field-sized identifiers, plus unqualified, no-order-0, repeated-node and free-order "
+                 "patterns; regularity decided by the reference determinant: regular => Interpolate and InterpolateInExponent return "
+                 "exactly the polynomial (coefficients, Eval), singular => error or an answer meeting every interpolation condition. "
+                 "Matrices: shapes 1-7 x 1-7 (0 is refused by the constructors: checked as an error), constructed rank: product of "
+                 "r x k and k x c factors with entries from {0,+-1,+-2} / mixed / uniform, zero, all-small, uniform, then up to two "
+                 "edits (duplicate / zero / scaled row, duplicate / zero column, row swap, zero pivot); right-hand sides: zero, M*x0, "
+                 "perturbed M*x0, unit, drawn. Oracle for SolveRight/SolveLeft: a solution is returned IFF the reference rank test "
+                 "says one exists, and any returned solution satisfies the equation (never compared with the reference solution). "
+                 "Determinant, TryInv (error iff det = 0), TryMul, Transpose, Minor, Augment, Stack, AsSquare equal the reference; "
+                 "Lift / LeftAction / RightAction entries equal the library ScalarBaseOp of the reference product; dimension "
+                 "mismatches must be errors, not panics. Non-trivial: >= 2 nodes / coefficients / a system with r+c >= 3 / n >= 2; "
+                 "distinct = (field, operation, shape, rank class incl. deficient / over- / under-determined, consistency class) "
+                 "resp. (field, mode, node-class mix, polynomial class, point class) resp. (field, mode, layout, regularity, k)."),
+        "assumptions": COMMON_ASSUME + [
+            "group-valued results are compared with the library's own ScalarBaseOp/Equal applied to the reference scalar (curve arithmetic is C14)",
+            "scalar-field orders are typed in from SEC 2, FIPS 186-4, RFC 8032, the Pasta and BLS12-381 specifications",
+        ],
+        "quick": {"scale": 1, "shards": 8, "timeout_s": 600},
+        "thorough": {"scale": 12, "shards": 16, "timeout_s": 2400},
+    },
 }
